@@ -271,6 +271,10 @@ func deepPoolOf(t int) []Val {
 // fmtRange is the number of spellings a type has (Val.Fmt).
 func fmtRange(t int) int {
 	switch t {
+	case TInt, TInt64, TUint, TUint64:
+		if intLiteralSpellings {
+			return 6
+		}
 	case TFloat:
 		return 5
 	case TDur:
@@ -344,13 +348,14 @@ func peerOf(r *rand.Rand, cs *Case) *Case {
 	if r.Intn(5) == 0 {
 		p.Tail = tails[r.Intn(len(tails))]
 	}
+	withUsageFlag(r, p)
 	return p
 }
 
 // concCase: 2..8 FlagSets for one struct type, made and parsed in goroutines released together.
 func concCase(r *rand.Rand) *Case {
 	cs := randStruct(r, nil)
-	cs.Kind = "concurrent"
+	cs.Kind, cs.FirstParse = "concurrent", nil
 	for g := 1 + r.Intn(7); g > 0; g-- {
 		cs.Peers = append(cs.Peers, peerOf(r, cs))
 	}
